@@ -88,7 +88,7 @@ func (v *FnVC) encodeInstr(ins ssa.Instruction) {
 			v.panicCheck("nil", fmt.Sprintf("(not (= %s 0))", l.Opaque), "nil pointer dereference", i.Pos())
 		}
 		val := v.val(i.Val)
-		v.checkFieldGuards(l, val, i.Pos())
+		v.checkFieldGuards(i, l, val, i.Pos())
 		v.store(st, l, val)
 	case *ssa.UnOp:
 		v.encodeUnOp(i)
